@@ -413,10 +413,24 @@ func specShape(s *Spec) string {
 func (w *World) checkValue(fm *FileModel, s *Spec, S *Struct, F *Field, path string) []Issue {
 	var out []Issue
 	exp := w.ExpectedRejects(s)
-	skipRejects := w.Cfg.MinSizedInts && s.Kind == "integer" // bound removal under --min-sized-ints is decided by C15
+	skipRejects := false
 	ft, isPtr := stripPtr(F.Type)
 	named := fm.Types[ft]
 	what := path + " (" + specShape(s) + ")"
+	if w.Cfg.MinSizedInts && s.Kind == "integer" && s.Enum == "" {
+		// a bound check may be dropped exactly where the chosen type's range implies it (C15)
+		gt := ft
+		if named != nil {
+			gt = fm.Underlying(ft)
+		}
+		var sized []Issue
+		exp, sized, skipRejects = w.SizedOracle(s, gt, exp, what)
+		if w.SizedCheck {
+			out = append(out, sized...)
+		} else {
+			skipRejects = true // decided by the C15 driver only (keeps the world product of the other drivers small)
+		}
+	}
 	primitiveNamed := named != nil && fm.Structs[ft] == nil && s.Kind != "object" && s.Enum == ""
 	for _, mn := range w.formats() {
 		if skipRejects {
@@ -428,6 +442,9 @@ func (w *World) checkValue(fm *FileModel, s *Spec, S *Struct, F *Field, path str
 			if m == nil {
 				if len(exp) > 0 {
 					for _, e := range exp {
+						if e.Optional {
+							continue
+						}
 						out = append(out, Issue{Rule: "A-REJ", Construct: "missing or misdirected check for " + e.Kw, Msg: fmt.Sprintf("%s: the schema states %s but type %s has no %s at all", what, e.Kw, ft, mn)})
 					}
 				}
@@ -443,6 +460,9 @@ func (w *World) checkValue(fm *FileModel, s *Spec, S *Struct, F *Field, path str
 		if m == nil {
 			if len(exp) > 0 {
 				for _, e := range exp {
+					if e.Optional {
+						continue
+					}
 					out = append(out, Issue{Rule: "A-REJ", Construct: "missing or misdirected check for " + e.Kw, Msg: fmt.Sprintf("%s: the schema states %s but %s has no %s at all", what, e.Kw, S.Name, mn)})
 				}
 			}
